@@ -48,9 +48,12 @@ import itertools
 import numpy as np
 from hypothesis import strategies as st
 
-from vlib.gen.coupled import CoupledSystem, coupled_systems
+from vlib.gen.coupled import X_SCALE, CoupledSystem, coupled_systems
 
 __all__ = [
+    "HingedSystem",
+    "system_model",
+    "HINGE_AT",
     "make_acyclic",
     "topological_order",
     "is_acyclic",
@@ -66,6 +69,91 @@ __all__ = [
 ]
 
 HALF = st.integers(-4, 4).map(lambda k: k * 0.5)
+
+HINGE_AT = 0.25  # kink of the hinge terms: never a generated design value (half-integer / integer grids)
+
+
+# ======================================================================================
+# hinge terms: partial Jacobians whose sparsity pattern depends on the point
+# ======================================================================================
+class HingedSystem(CoupledSystem):
+    """A :class:`CoupledSystem` whose outputs may also hold hinge terms of the DESIGN inputs.
+
+    ``"hinge": {x name: integer block}`` on an output adds ``X_SCALE * block @ max(x - HINGE_AT, 0)``; the input must
+    also appear in ``"lin"`` (possibly with a zero block), which is how the base class learns about it.  The system is
+    still smooth in the couplings (contraction, solve and total derivatives untouched); the partial derivative with
+    respect to ``x`` is ``X_SCALE * (L + H * 1[x > HINGE_AT])``: with ``L = 0`` the block is exactly zero wherever the
+    hinges are inactive, so a discipline storing ``csr_array`` blocks returns blocks WITHOUT any stored entry at
+    some points and populated ones at others.
+    """
+
+    def __init__(self, payload: dict):
+        super().__init__(payload)
+        self._hinges = []  # per discipline: {output: [(x name, block)]}
+        self.has_hinge = False
+        for d in payload["discs"]:
+            per_out = {}
+            for o in d["outputs"]:
+                terms = []
+                for name, block in o.get("hinge", {}).items():
+                    if name not in self.x_names or name not in o.get("lin", {}):
+                        raise ValueError("a hinge term reads a design input that is also listed in 'lin'")
+                    terms.append((name, self._block(o, name, block)))
+                    self.has_hinge = True
+                per_out[o["name"]] = terms
+            self._hinges.append(per_out)
+        if self.has_hinge:
+            self.linear = False
+
+    def run(self, i: int, data: dict) -> dict:
+        out = super().run(i, data)
+        for name, terms in self._hinges[i].items():
+            for x_name, block in terms:
+                u = np.asarray(data[x_name], dtype=float)
+                out[name] = out[name] + X_SCALE * (block @ np.maximum(u - HINGE_AT, 0.0))
+        return out
+
+    def partials(self, i: int, data: dict) -> dict:
+        jac = super().partials(i, data)
+        for name, terms in self._hinges[i].items():
+            for x_name, block in terms:
+                u = np.asarray(data[x_name], dtype=float)
+                jac[name][x_name] = jac[name][x_name] + X_SCALE * block * (u > HINGE_AT).astype(float)[None, :]
+        return jac
+
+
+def system_model(payload: dict) -> CoupledSystem:
+    """The plain-numpy model of a payload (with or without hinge terms)."""
+    if any("hinge" in o for d in payload["discs"] for o in d["outputs"]):
+        return HingedSystem(payload)
+    return CoupledSystem(payload)
+
+
+@st.composite
+def _with_hinges(draw, payload: dict):
+    """Give some outputs hinge terms of a design input, in disciplines storing sparse Jacobian blocks."""
+    if draw(st.integers(0, 3)) > 0:
+        return payload
+    discs = [{**d, "outputs": [dict(o) for o in d["outputs"]]} for d in payload["discs"]]
+    done = False
+    for d in discs:
+        if done and draw(st.booleans()):
+            continue
+        for o in d["outputs"]:
+            if done and draw(st.booleans()):
+                continue
+            v = draw(st.sampled_from(payload["x"]))
+            block = [[draw(st.integers(-3, 3)) for _ in range(v["size"])] for _ in range(o["size"])]
+            block[0][0] = block[0][0] or 2
+            lin = dict(o.get("lin", {}))
+            if v["name"] not in lin or draw(st.integers(0, 3)) > 0:
+                # no linear part: the whole block vanishes (no stored entry) where the hinges are inactive
+                lin[v["name"]] = [[0] * v["size"] for _ in range(o["size"])]
+            o["lin"] = lin
+            o["hinge"] = {v["name"]: block}
+            d["jac"] = "sparse"
+            done = True
+    return {"q": payload["q"], "x": payload["x"], "discs": discs}
 
 
 # ======================================================================================
@@ -223,8 +311,8 @@ def formulation_cases(draw):
     system = draw(_with_second_couplings(system))
     if shape == "acyclic":
         system = make_acyclic(system)
-    system = ensure_a_design_input_is_read(system)
-    model = CoupledSystem(system)
+    system = draw(_with_hinges(ensure_a_design_input_is_read(system)))
+    model = system_model(system)
     couplings = model.couplings()
     info_all_strong = len(model.sccs()) == 1 and len(system["discs"]) > 1
     # every design variable integer-typed (the MDF design vector then has an integer dtype) or all of them float
@@ -243,11 +331,14 @@ def formulation_cases(draw):
     for n in names:
         size = model.sizes[n]
         if n in model.producer:
-            if not normalize and draw(st.integers(0, 4)) == 0:
+            lo = [float(draw(st.integers(-90, -60))) for _ in range(size)]
+            hi = [float(draw(st.integers(60, 90))) for _ in range(size)]
+            # a coupling without (finite) bounds, also with normalize_constraints: |ub - lb| is then infinite
+            kind = draw(st.integers(0, 24 if normalize else 4))
+            if kind == 0:
                 lo = hi = None
-            else:
-                lo = [float(draw(st.integers(-90, -60))) for _ in range(size)]
-                hi = [float(draw(st.integers(60, 90))) for _ in range(size)]
+            elif kind == 1 and normalize:
+                hi = None
         elif integer_x:  # integer variables with integer bounds
             lo = [min(x[n][k], x[n][k] + dx[n][k]) - draw(st.sampled_from([0.0, 1.0, 2.0])) for k in range(size)]
             hi = [max(x[n][k], x[n][k] + dx[n][k]) + draw(st.sampled_from([1.0, 2.0])) for k in range(size)]
